@@ -1,7 +1,674 @@
-//! C14 — not built yet (stub keeps the registry stable while modules are written in parallel).
+//! C14 — the formatter never changes a program, loses no comment, and is idempotent.
 
-use crate::engine::case::Prop;
+#[path = "c14_fp.rs"]
+mod fp;
+#[path = "c14_gen.rs"]
+mod gen_;
+
+use crate::engine::case::*;
+use crate::engine::panics;
+use crate::engine::rng::hash64;
+use crate::engine::shrink::text_candidates;
+use crate::engine::tape::Gen;
+use crate::gens::textgen as tg;
+use fp::Features;
+use mimium_fmt::{pretty_print_cst, GLOBAL_DATA};
+use mimium_lang::compiler::parser::{self, SyntaxKind, TokenKind};
+use serde_json::{json, Value};
+use std::sync::OnceLock;
+
+pub struct C14;
+
+pub const WIDTHS: [usize; 8] = [1, 8, 20, 40, 50, 80, 120, 1000];
+pub const INDENTS: [usize; 4] = [0, 2, 4, 8];
+/// the same values, simplest first (choice 0 of a random draw is the minimal one)
+const WIDTHS_SIMPLE_FIRST: [usize; 8] = [80, 1000, 120, 50, 40, 20, 8, 1];
+const INDENTS_SIMPLE_FIRST: [usize; 4] = [4, 2, 8, 0];
+const DEFAULT_INDENT: usize = 4;
+
+// ---------------------------------------------------------------------------------------------
+// the code under test
+// ---------------------------------------------------------------------------------------------
+
+fn set_indent(n: usize) {
+    // the formatter reads the indent through try_lock (falling back to 4), so the guard must be
+    // released before the formatter runs
+    let mut g = GLOBAL_DATA.lock().unwrap_or_else(|e| e.into_inner());
+    g.indent_size = n;
+}
+
+/// `Ok(Ok(text))`, `Ok(Err(n diagnostics))`, `Err(panic)`
+fn format(src: &str, width: usize) -> Result<Result<String, usize>, panics::PanicInfo> {
+    panics::catch(|| pretty_print_cst(src, &None, width).map_err(|e| e.len()))
+}
+
+// ---------------------------------------------------------------------------------------------
+// oracle
+// ---------------------------------------------------------------------------------------------
+
+/// one oracle violation: (kind, message); kinds are the unqualified signature stems
+struct Violation {
+    kind: &'static str,
+    /// output-does-not-parse: the output line of the first parser error
+    err_line: Option<String>,
+    panic_sig: Option<String>,
+    msg: String,
+}
+
+struct Observed {
+    violations: Vec<Violation>,
+    out: Option<String>,
+}
+
+fn first_line_diff(a: &str, b: &str) -> String {
+    let mut la = a.split('\n');
+    let mut lb = b.split('\n');
+    let mut n = 1;
+    loop {
+        match (la.next(), lb.next()) {
+            (Some(x), Some(y)) if x == y => n += 1,
+            (x, y) => return format!("line {n}: first pass {:?} / second pass {:?}", x.map(|s| s.chars().take(100).collect::<String>()), y.map(|s| s.chars().take(100).collect::<String>())),
+        }
+    }
+}
+
+fn is_subsequence(a: &[String], b: &[String]) -> bool {
+    let mut it = b.iter();
+    a.iter().all(|x| it.any(|y| y == x))
+}
+
+/// Run the formatter on a valid text and collect every oracle violation, in the fixed order
+/// format / parse / tree / comments / idempotence.  `src_fp` is the fingerprint of `src`.
+fn observe(src: &str, src_fp: &str, width: usize, indent: usize) -> Observed {
+    set_indent(indent);
+    let o = observe_inner(src, src_fp, width);
+    set_indent(DEFAULT_INDENT);
+    o
+}
+
+fn observe_inner(src: &str, src_fp: &str, width: usize) -> Observed {
+    let mut v = vec![];
+    let out = match format(src, width) {
+        Err(p) => {
+            v.push(Violation { kind: "panic", err_line: None, panic_sig: Some(p.signature()), msg: format!("the formatter panicked: {}", p.describe()) });
+            return Observed { violations: v, out: None };
+        }
+        Ok(Err(n)) => {
+            v.push(Violation { kind: "format-error", err_line: None, panic_sig: None, msg: format!("pretty_print_cst returned Err ({n} diagnostics) on a text that parses without errors") });
+            return Observed { violations: v, out: None };
+        }
+        Ok(Ok(s)) => s,
+    };
+    // the output parses, to the same tree
+    let out_parses = match panics::catch(|| fp::parse_fp(&out)) {
+        Err(p) => {
+            v.push(Violation { kind: "output-does-not-parse", err_line: None, panic_sig: None, msg: format!("the parser panicked on the formatter's output: {}", p.describe()) });
+            false
+        }
+        Ok(Err((e, line))) => {
+            v.push(Violation { kind: "output-does-not-parse", err_line: Some(line), panic_sig: None, msg: format!("the output has {e}") });
+            false
+        }
+        Ok(Ok(out_fp)) => {
+            if out_fp != src_fp {
+                v.push(Violation { kind: "ast-changed", err_line: None, panic_sig: None, msg: fp::fp_diff(src_fp, &out_fp) });
+            }
+            true
+        }
+    };
+    // comments
+    let cs = fp::comments(src);
+    let co = fp::comments(&out);
+    if cs != co {
+        let mut a = cs.clone();
+        let mut b = co.clone();
+        a.sort();
+        b.sort();
+        let first = cs.iter().zip(co.iter()).position(|(x, y)| x != y).unwrap_or(cs.len().min(co.len()));
+        let show = |v: &Vec<String>| v.get(first).map(|s| s.chars().take(60).collect::<String>());
+        let (kind, what) = if a == b {
+            ("comment-reordered", "the same comments appear in a different order")
+        } else if is_subsequence(&cs, &co) {
+            ("comment-added", "the output has comments the input does not have")
+        } else {
+            ("comment-lost", "a comment of the input is missing from the output")
+        };
+        v.push(Violation { kind, err_line: None, panic_sig: None, msg: format!("{what}: input has {} comments, output {}; first difference at comment #{first}: input {:?} / output {:?}", cs.len(), co.len(), show(&cs), show(&co)) });
+    }
+    // fixed point
+    if out_parses {
+        match format(&out, width) {
+            Err(p) => v.push(Violation { kind: "panic", err_line: None, panic_sig: Some(p.signature()), msg: format!("the formatter panicked on its own output: {}", p.describe()) }),
+            Ok(Err(_)) => v.push(Violation { kind: "not-idempotent", err_line: None, panic_sig: None, msg: "formatting the output again returns Err".into() }),
+            Ok(Ok(again)) => {
+                if again != out {
+                    v.push(Violation { kind: "not-idempotent", err_line: None, panic_sig: None, msg: format!("formatting the output again changes it; {}", first_line_diff(&out, &again)) });
+                }
+            }
+        }
+    }
+    Observed { violations: v, out: Some(out) }
+}
+
+// ---------------------------------------------------------------------------------------------
+// triaged root causes (known findings)
+//
+// Structural defects (the output does not parse / parses to another tree) are attributed by a
+// token-level REPAIR: the non-trivia tokens of the output are aligned with those of the input;
+// exactly the differences the triaged defects produce are undone (a comma inserted in front of
+// `:` / `=` inside a list item, `| |` fused to `||`, tokens glued together without a space in
+// `if cond`, type declarations and match expressions).  Only if the repaired output then parses
+// to the input's tree is the violation attributed to those findings, so any further defect in
+// the same text is still reported.
+// Comment defects are attributed by predicting the output's comment sequence from the input.
+// ---------------------------------------------------------------------------------------------
+
+struct CaseView<'a> {
+    src: &'a str,
+    src_fp: &'a str,
+    out: Option<&'a str>,
+    feats: &'a Features,
+}
+
+/// ids of the known findings (switches for `--no-exclude`) and their signature qualifiers
+pub const KF_LIST_SPLIT: (&str, &str) = ("C14-list-item-split", "list-item-split");
+pub const KF_EMPTY_LAMBDA: (&str, &str) = ("C14-empty-lambda-bars-fused", "empty-lambda-bars-fused");
+pub const KF_IF_BARE: (&str, &str) = ("C14-if-condition-glued", "if-condition-glued");
+pub const KF_TYPE_DECL: (&str, &str) = ("C14-type-decl-unspaced", "type-decl-unspaced");
+pub const KF_MATCH: (&str, &str) = ("C14-match-unspaced", "match-unspaced");
+pub const KF_BLOCK_END_COMMENT: (&str, &str) = ("C14-comment-after-block-end-lost", "after-block-end");
+pub const KF_COMMA_COMMENT: (&str, &str) = ("C14-comment-after-comma-lost", "after-comma");
+pub const KF_USE_BRACES_COMMENT: (&str, &str) = ("C14-comment-in-use-braces-lost", "in-use-braces");
+pub const KF_SINGLE_TUPLE: (&str, &str) = ("C14-single-element-tuple-comma-dropped", "single-element-tuple-comma-dropped");
+pub const KF_HEADER_DUP: (&str, &str) = ("C14-first-token-leading-comment-duplicated", "first-token-leading-duplicated");
+
+type Finding = (&'static str, &'static str);
+
+fn push_unique(v: &mut Vec<Finding>, f: Finding) {
+    if !v.contains(&f) {
+        v.push(f);
+    }
+}
+
+/// Undo the triaged token-level defects in `out`.  Returns the repaired text and the findings
+/// whose trace was undone; None when the token streams differ in any other way.
+fn repair(c: &CaseView) -> Result<(String, Vec<Finding>), String> {
+    let Some(out) = c.out else { return Err(String::new()) };
+    let st_all = parser::tokenize(c.src);
+    let ot_all = parser::tokenize(out);
+    let st: Vec<usize> = (0..st_all.len()).filter(|i| !st_all[*i].is_trivia() && st_all[*i].kind != TokenKind::Eof).collect();
+    let ot: Vec<usize> = (0..ot_all.len()).filter(|i| !ot_all[*i].is_trivia() && ot_all[*i].kind != TokenKind::Eof).collect();
+    let stext = |i: usize| st_all[st[i]].text(c.src);
+    let otext = |j: usize| ot_all[ot[j]].text(out);
+    let mut found: Vec<Finding> = vec![];
+    // (byte range in out, replacement)
+    let mut edits: Vec<(usize, usize, String)> = vec![];
+    let (mut i, mut j) = (0usize, 0usize);
+    while i < st.len() && j < ot.len() {
+        let (s, o) = (stext(i), otext(j));
+        // parentheses around an element type of a tuple type are never printed (the parser keeps
+        // no node for them: the tree is the same)
+        if c.feats.unprinted_type_parens.contains(&st[i]) {
+            i += 1;
+            continue;
+        }
+        if s == o {
+            i += 1;
+            j += 1;
+            continue;
+        }
+        // `| |` printed as `||`
+        if s == "|" && i + 1 < st.len() && stext(i + 1) == "|" && o == "||" {
+            let t = &ot_all[ot[j]];
+            edits.push((t.start, t.end(), "| |".into()));
+            push_unique(&mut found, KF_EMPTY_LAMBDA);
+            i += 2;
+            j += 1;
+            continue;
+        }
+        // a comma the printer put between the parts of one list item: `x, :T`, `x, =1`, `a, :, T`, `a, =, p`
+        if o == "," && s != "," {
+            let next = if j + 1 < ot.len() { otext(j + 1) } else { "" };
+            let prev = if j > 0 { otext(j - 1) } else { "" };
+            if matches!(next, ":" | "=") || matches!(prev, ":" | "=") {
+                let t = &ot_all[ot[j]];
+                edits.push((t.start, t.end(), String::new()));
+                push_unique(&mut found, KF_LIST_SPLIT);
+                j += 1;
+                continue;
+            }
+            return Err(format!(" [the output has a comma the input does not have, before {next:?}]"));
+        }
+        // the trailing comma of a one-element tuple `(x,)` left out: `(x)` is another tree
+        if s == "," && o != "," && c.feats.single_tuple_commas.contains(&st[i]) {
+            let t = &ot_all[ot[j]];
+            edits.push((t.start, t.start, ",".into()));
+            push_unique(&mut found, KF_SINGLE_TUPLE);
+            i += 1;
+            continue;
+        }
+        // a (trailing) comma the printer left out: ordinary formatting
+        if s == "," && o != "," {
+            i += 1;
+            continue;
+        }
+        // several input tokens printed without anything between them
+        if o.len() > s.len() && o.starts_with(s) {
+            let mut k = i;
+            let mut acc = String::new();
+            while k < st.len() && acc.len() < o.len() {
+                acc.push_str(stext(k));
+                k += 1;
+            }
+            if acc != o {
+                return Err(format!(" [output token {o:?} is not made of the input tokens that follow {s:?}]"));
+            }
+            // the node that joins each pair of glued tokens tells which printer rule is missing
+            for x in i..k - 1 {
+                let f = match c.feats.lca_after.get(st[x]).copied().flatten() {
+                    Some(SyntaxKind::TypeDecl | SyntaxKind::VariantDef) => KF_TYPE_DECL,
+                    Some(SyntaxKind::MatchExpr | SyntaxKind::MatchArm | SyntaxKind::MatchArmList | SyntaxKind::MatchPattern | SyntaxKind::ConstructorPattern) => KF_MATCH,
+                    Some(SyntaxKind::IfExpr) if stext(x) == "if" => KF_IF_BARE,
+                    // tokens glued in a construct that has not been triaged: not a known finding
+                    k => return Err(format!(" [the output glues the input tokens {:?} and {:?} (joined by a {k:?} node), which no triaged defect explains]", stext(x), stext(x + 1))),
+                };
+                push_unique(&mut found, f);
+            }
+            let t = &ot_all[ot[j]];
+            let parts: Vec<&str> = (i..k).map(stext).collect();
+            edits.push((t.start, t.end(), parts.join(" ")));
+            i = k;
+            j += 1;
+            continue;
+        }
+        return Err(format!(" [token streams diverge: input {s:?} / output {o:?}]"));
+    }
+    while i < st.len() && (stext(i) == "," || c.feats.unprinted_type_parens.contains(&st[i])) {
+        i += 1;
+    }
+    if i != st.len() || j != ot.len() {
+        return Err(" [the output has fewer or more tokens than the input]".into());
+    }
+    if found.is_empty() {
+        return Err(" [the output has the input's tokens in order, up to list commas: the defect is in the placement of line breaks, commas or comments]".into());
+    }
+    let mut fixed = String::with_capacity(out.len() + 16);
+    let mut pos = 0;
+    for (a, b, r) in edits {
+        fixed.push_str(&out[pos..a]);
+        fixed.push_str(&r);
+        pos = b;
+    }
+    fixed.push_str(&out[pos..]);
+    Ok((fixed, found))
+}
+
+/// The findings that fully explain a structural violation (the repaired output parses to the
+/// input's tree); otherwise a note for the failure message.
+fn explain_structure(c: &CaseView) -> Result<Vec<Finding>, String> {
+    let (fixed, found) = repair(c)?;
+    let names: Vec<&str> = found.iter().map(|f| f.0).collect();
+    match panics::catch(|| fp::parse_fp(&fixed)) {
+        Ok(Ok(f)) if f == c.src_fp => Ok(found),
+        Ok(Ok(f)) => Err(format!(" [with the traces of {names:?} undone the output parses, but to another tree: {}]", fp::fp_diff(c.src_fp, &f))),
+        Ok(Err((e, _))) => Err(format!(" [with the traces of {names:?} undone the output still has {e}]")),
+        Err(p) => Err(format!(" [with the traces of {names:?} undone the parser panics: {}]", p.describe())),
+    }
+}
+
+/// Which known finding drops the comment at this site?
+fn comment_drop_site(s: &fp::CommentSite) -> Option<Finding> {
+    if !s.leading && s.owner == TokenKind::BlockEnd && s.parent == Some(SyntaxKind::BlockExpr) {
+        return Some(KF_BLOCK_END_COMMENT);
+    }
+    if matches!(s.owner, TokenKind::Comma | TokenKind::BlockBegin | TokenKind::BlockEnd) && s.parent == Some(SyntaxKind::UseTargetMultiple) {
+        return Some(KF_USE_BRACES_COMMENT);
+    }
+    // the list printers skip the comma tokens together with the trivia attached to them
+    if s.owner == TokenKind::Comma
+        && matches!(
+            s.parent,
+            Some(
+                SyntaxKind::ParamList
+                    | SyntaxKind::ArgList
+                    | SyntaxKind::TupleExpr
+                    | SyntaxKind::ArrayExpr
+                    | SyntaxKind::RecordExpr
+                    | SyntaxKind::TupleType
+                    | SyntaxKind::RecordType
+                    | SyntaxKind::TuplePattern
+                    | SyntaxKind::RecordPattern
+                    | SyntaxKind::LambdaExpr
+                    | SyntaxKind::MacroExpansion
+            )
+        )
+    {
+        return Some(KF_COMMA_COMMENT);
+    }
+    None
+}
+
+/// Predict the output's comment sequence from the input under the triaged comment defects
+/// (comments at a drop site vanish; comments in front of the file's first token on its own
+/// line are printed twice).  If the prediction equals the output, return the findings involved.
+fn explain_comment_changes(c: &CaseView) -> Option<Vec<Finding>> {
+    let out = c.out?;
+    let co = fp::comments(out);
+    let toks = parser::tokenize(c.src);
+    let first_nt = toks.iter().position(|t| !t.is_trivia()).unwrap_or(toks.len());
+    let mut header = vec![]; // comments before the first token
+    let mut dup = vec![]; // those printed a second time
+    let mut rest = vec![];
+    let mut ids: Vec<Finding> = vec![];
+    for (ti, t) in toks.iter().enumerate() {
+        if !matches!(t.kind, TokenKind::SingleLineComment | TokenKind::MultiLineComment) {
+            continue;
+        }
+        let text = t.text(c.src).trim_end().to_string();
+        let site = c.feats.comment_sites.iter().find(|s| s.token == ti);
+        if ti < first_nt {
+            header.push(text.clone());
+            if site.map(|s| s.leading).unwrap_or(false) {
+                dup.push(text);
+                push_unique(&mut ids, KF_HEADER_DUP);
+            }
+            continue;
+        }
+        match site.and_then(comment_drop_site) {
+            Some(k) => push_unique(&mut ids, k),
+            None => rest.push(text),
+        }
+    }
+    let mut expected = header;
+    expected.extend(dup);
+    expected.extend(rest);
+    if !ids.is_empty() && expected == co { Some(ids) } else { None }
+}
+
+/// (signature, known findings that fully explain this violation — empty if it is not explained,
+/// note for the message).
+/// `structural`: findings that explained an earlier structural violation of the same case.
+fn classify(c: &CaseView, v: &Violation, structural: &[Finding]) -> (String, Vec<Finding>, String) {
+    let mut note = String::new();
+    let found: Option<Vec<Finding>> = match v.kind {
+        "panic" => return (format!("c14:{}", v.panic_sig.clone().unwrap_or_else(|| "panic".into())), vec![], note),
+        "output-does-not-parse" | "ast-changed" => match explain_structure(c) {
+            Ok(f) => Some(f),
+            Err(n) => {
+                note = n;
+                None
+            }
+        },
+        "comment-lost" | "comment-added" | "comment-reordered" => explain_comment_changes(c),
+        // the output is (by an explained defect) another program than the input: its second
+        // formatting is not the subject any more
+        "not-idempotent" if !structural.is_empty() => Some(structural.to_vec()),
+        _ => None,
+    };
+    match found {
+        Some(f) if !f.is_empty() => (format!("c14:{}:{}", v.kind, f[0].1), f, note),
+        _ => (format!("c14:{}", v.kind), vec![], note),
+    }
+}
+
+// ---------------------------------------------------------------------------------------------
+// case assembly
+// ---------------------------------------------------------------------------------------------
+
+fn clip(s: &str, n: usize) -> String {
+    if s.len() <= n {
+        return s.to_string();
+    }
+    let mut e = n;
+    while !s.is_char_boundary(e) {
+        e -= 1;
+    }
+    format!("{}…[{} bytes]", &s[..e], s.len())
+}
+
+/// fingerprints of the shipped sources (None: the parser reports an error)
+fn corpus_fps() -> &'static Vec<Option<String>> {
+    static C: OnceLock<Vec<Option<String>>> = OnceLock::new();
+    C.get_or_init(|| tg::corpus().iter().map(|(_, s)| fp::parse_fp(s).ok()).collect())
+}
+
+/// indices of the valid shipped sources
+fn valid_corpus() -> &'static Vec<usize> {
+    static C: OnceLock<Vec<usize>> = OnceLock::new();
+    C.get_or_init(|| corpus_fps().iter().enumerate().filter(|(_, f)| f.is_some()).map(|(i, _)| i).collect())
+}
+
+struct Input<'a> {
+    src: &'a str,
+    width: usize,
+    indent: usize,
+    source: &'static str,
+    /// fingerprint `src` must have (mutants: the unmutated text's), if known
+    expect_fp: Option<&'a str>,
+    /// fingerprint of `src` when already computed
+    known_fp: Option<&'a str>,
+    labels: Vec<String>,
+}
+
+fn finish(i: Input, cx: &Cx) -> CaseResult {
+    let direct = json!({"text": i.src, "width": i.width, "indent": i.indent});
+    if cx.dry {
+        let mut r = CaseResult::discard("dry");
+        r.render = Some(json!({"text": clip(i.src, 600), "width": i.width, "indent": i.indent}));
+        r.direct = Some(direct);
+        return r;
+    }
+    // domain: the parser reports no error (and, for a mutant, the tree is the unmutated one)
+    let owned;
+    let src_fp: &str = match i.known_fp {
+        Some(f) => f,
+        None => match panics::catch(|| fp::parse_fp(i.src)) {
+            Ok(Ok(f)) => {
+                owned = f;
+                &owned
+            }
+            _ => {
+                let mut r = CaseResult::discard(format!("not-valid:{}", i.source));
+                r.classes.push(format!("src:{}", i.source));
+                return r;
+            }
+        },
+    };
+    if let Some(e) = i.expect_fp {
+        if e != src_fp {
+            let mut r = CaseResult::discard(format!("mutation-changed-tree:{}", i.source));
+            r.classes.push(format!("src:{}", i.source));
+            return r;
+        }
+    }
+    let feats = fp::features(i.src).unwrap_or_default();
+    let has_comment = feats.n_comments > 0;
+    let needs_break = i.src.lines().any(|l| l.chars().count() > i.width);
+    let mut hb = Vec::with_capacity(i.src.len() + 16);
+    hb.extend_from_slice(i.src.as_bytes());
+    hb.extend_from_slice(&(i.width as u64).to_le_bytes());
+    hb.extend_from_slice(&(i.indent as u64).to_le_bytes());
+    let hash = hash64(&hb);
+
+    let ob = observe(i.src, src_fp, i.width, i.indent);
+    let view = CaseView { src: i.src, src_fp, out: ob.out.as_deref(), feats: &feats };
+    let mut excluded: Vec<&'static str> = vec![];
+    let mut structural: Vec<Finding> = vec![];
+    let mut failure: Option<(String, String)> = None;
+    for v in &ob.violations {
+        let (sig, known, note) = classify(&view, v, &structural);
+        if matches!(v.kind, "output-does-not-parse" | "ast-changed") {
+            structural = known.clone();
+        }
+        if !known.is_empty() && !cx.strict && known.iter().all(|k| cx.excluded(k.0)) {
+            for k in known {
+                if !excluded.contains(&k.0) {
+                    excluded.push(k.0);
+                }
+            }
+        } else {
+            failure = Some((sig, format!("{}{note}", v.msg)));
+            break;
+        }
+    }
+    let mut r = match (&failure, excluded.is_empty()) {
+        (Some((s, m)), _) => CaseResult::fail(hash, s.clone(), m.clone()),
+        (None, true) => CaseResult::held(hash),
+        (None, false) => CaseResult::discard(format!("known-finding:{}", excluded[0])),
+    };
+    for id in &excluded {
+        r.count(&format!("excluded_by_known_finding:{id}"), 1);
+        r.classes.push(format!("known:{id}"));
+    }
+    r.nontrivial = has_comment || needs_break;
+    r.classes.push(format!("src:{}", i.source));
+    r.classes.push(format!("width:{}", i.width));
+    r.classes.push(format!("indent:{}", i.indent));
+    if has_comment {
+        r.classes.push("has-comment".into());
+    }
+    if needs_break {
+        r.classes.push("needs-break".into());
+    }
+    if !r.nontrivial {
+        r.classes.push("trivial".into());
+    }
+    r.classes.extend(i.labels);
+    if cx.render || r.is_fail() {
+        r.render = Some(json!({"text": clip(i.src, 600), "width": i.width, "indent": i.indent, "out": ob.out.as_deref().map(|o| clip(o, 600))}));
+        r.direct = Some(direct);
+    }
+    r
+}
+
+fn pick_params(g: &mut Gen) -> (usize, usize) {
+    let w = *g.pick(&WIDTHS_SIMPLE_FIRST);
+    let n = *g.pick(&INDENTS_SIMPLE_FIRST);
+    (w, n)
+}
+
+impl Prop for C14 {
+    fn id(&self) -> &'static str {
+        "C14"
+    }
+    fn spaces(&self, tier: Tier) -> Vec<Space> {
+        let files = tg::corpus().len() as u64;
+        let grid = (WIDTHS.len() * INDENTS.len()) as u64;
+        let (m, s) = match tier {
+            Tier::Quick => (7_000, 6_000),
+            Tier::Thorough => (500_000, 500_000),
+        };
+        vec![
+            Space { name: "corpus", size: files * grid, exhaustive: true, chunk: 800, case_timeout_s: 20.0, what: "every shipped .mmm source that parses without errors x 8 line widths x 4 indent sizes" },
+            Space { name: "mutants", size: m, exhaustive: false, chunk: 1000, case_timeout_s: 20.0, what: "valid shipped sources with 1-5 layout/comment mutations (kept only if still error-free with an unchanged tree) x random width x indent" },
+            Space { name: "synthetic", size: s, exhaustive: false, chunk: 2000, case_timeout_s: 20.0, what: "programs assembled from a grammar of statement/expression templates, optionally layout-mutated (kept only if error-free) x random width x indent" },
+        ]
+    }
+    fn run(&self, space: &str, index: u64, g: &mut Gen, cx: &Cx) -> CaseResult {
+        match space {
+            "corpus" => {
+                let grid = (WIDTHS.len() * INDENTS.len()) as u64;
+                let c = tg::corpus();
+                let fi = (index / grid) as usize;
+                let rem = (index % grid) as usize;
+                let width = WIDTHS[rem / INDENTS.len()];
+                let indent = INDENTS[rem % INDENTS.len()];
+                let Some((_, src)) = c.get(fi) else { return CaseResult::discard("no-such-file") };
+                if cx.dry {
+                    return finish(Input { src, width, indent, source: "corpus", expect_fp: None, known_fp: None, labels: vec![] }, cx);
+                }
+                match &corpus_fps()[fi] {
+                    None => {
+                        let mut r = CaseResult::discard("not-valid:corpus");
+                        r.classes.push("src:corpus-invalid".into());
+                        r
+                    }
+                    Some(f) => finish(Input { src, width, indent, source: "corpus", expect_fp: None, known_fp: Some(f), labels: vec![] }, cx),
+                }
+            }
+            "mutants" => {
+                let vc = valid_corpus();
+                if vc.is_empty() {
+                    return CaseResult::discard("no-valid-corpus-file");
+                }
+                let fi = vc[g.usize_below(vc.len())];
+                let (_, base) = &tg::corpus()[fi];
+                let n = 1 + g.usize_below(5);
+                let (text, kinds) = gen_::mutate(base, g, n);
+                let (width, indent) = pick_params(g);
+                let labels = kinds.iter().map(|k| format!("mut:{k}")).collect();
+                let base_fp = corpus_fps()[fi].as_deref();
+                finish(Input { src: &text, width, indent, source: "mutant", expect_fp: base_fp, known_fp: None, labels }, cx)
+            }
+            _ => {
+                let (base, used) = gen_::synthetic(g);
+                let nm = g.weighted(&[3, 2, 2, 1]);
+                let (width, indent) = pick_params(g);
+                let mut labels: Vec<String> = used.iter().map(|k| format!("syn:{k}")).collect();
+                if nm == 0 || cx.dry {
+                    return finish(Input { src: &base, width, indent, source: "synthetic", expect_fp: None, known_fp: None, labels }, cx);
+                }
+                // layout mutations of the synthetic program: the tree must stay the unmutated one
+                let base_fp = match panics::catch(|| fp::parse_fp(&base)) {
+                    Ok(Ok(f)) => f,
+                    _ => {
+                        let mut r = CaseResult::discard("not-valid:synthetic");
+                        r.classes.push("src:synthetic".into());
+                        return r;
+                    }
+                };
+                let (text, kinds) = gen_::mutate(&base, g, nm);
+                labels.extend(kinds.iter().map(|k| format!("mut:{k}")));
+                finish(Input { src: &text, width, indent, source: "synthetic", expect_fp: Some(&base_fp), known_fp: None, labels }, cx)
+            }
+        }
+    }
+    fn run_direct(&self, input: &Value, cx: &Cx) -> Option<CaseResult> {
+        let t = input.get("text")?.as_str()?;
+        let width = input.get("width").and_then(|v| v.as_u64()).unwrap_or(80) as usize;
+        let indent = input.get("indent").and_then(|v| v.as_u64()).unwrap_or(DEFAULT_INDENT as u64) as usize;
+        Some(finish(Input { src: t, width, indent, source: "direct", expect_fp: None, known_fp: None, labels: vec![] }, cx))
+    }
+    fn shrink_direct(&self, input: &Value) -> Vec<Value> {
+        let Some(t) = input.get("text").and_then(|v| v.as_str()) else { return vec![] };
+        let width = input.get("width").and_then(|v| v.as_u64()).unwrap_or(80);
+        let indent = input.get("indent").and_then(|v| v.as_u64()).unwrap_or(DEFAULT_INDENT as u64);
+        // a candidate that no longer parses without errors is answered with Discard by
+        // `run_direct`, so the shrinker rejects it
+        let mut out: Vec<Value> = text_candidates(t).into_iter().map(|s| json!({"text": s, "width": width, "indent": indent})).collect();
+        if indent != DEFAULT_INDENT as u64 {
+            out.push(json!({"text": t, "width": width, "indent": DEFAULT_INDENT}));
+        }
+        out
+    }
+    fn rule(&self) -> String {
+        format!(
+            "Cases are (text, line width, indent size) with width in {WIDTHS:?} and indent in {INDENTS:?} (set through the public mimium_fmt::GLOBAL_DATA, as the CLI does, and restored to 4 after each case). \
+             Texts: (corpus, exhaustive) every shipped .mmm source for which parse_program reports no error; (mutants) such a source with 1-5 edits chosen on its token stream — ' // cN' before a line break, an own-line '// cN' or '/* cN */', \
+             ' /* cN */ ' in place of inner whitespace, blank lines added/removed, re-indentation, trailing whitespace, a line break replaced by ';' (the tokenizer reads ';' as a line break), runs of spaces/tabs, CRLF line ends, a line split at inner whitespace with or without a '// cN', '/* cN */' squeezed between two adjacent tokens — kept only if the \
+             parser still reports no error and the tree fingerprint equals the unmutated one; (synthetic) 1-5 top-level statements from a grammar of templates (fn with 0-3 plain/typed/defaulted parameters and return types, let with tuple/record patterns, \
+             letrec, if/else expression and statement forms, lambdas, |> and ||> pipes, operator chains of 2-7 operands, nested calls, tuples, arrays, records/incomplete records/record updates, field/projection/index, macro!(), quote/splice, match with \
+             constructor patterns, type/type rec/type alias, mod with pub fn, use, include, #stage), optionally layout-mutated, kept only if error-free. \
+             Oracle: pretty_print_cst(text, &None, width) is Ok(out) and does not panic; parse_program(out) reports no error; the structural fingerprint of the lowered Program (every statement/expression/pattern/type/literal/operator/visibility, \
+             spans ignored) is the same for text and out; the sequence of comment token texts (trailing whitespace trimmed) is the same; pretty_print_cst(out, &None, width) == Ok(out). \
+             Non-trivial = the text has a comment or a line longer than the width; distinct by hash of (text, width, indent)."
+        )
+    }
+    fn assumptions(&self) -> Vec<String> {
+        vec![
+            "'syntactically valid' = mimium_lang::compiler::parser::parse_program reports no error (the same parser the formatter uses to refuse a text); include/use targets are not resolved, so sources that include other files are in the domain".into(),
+            "tree equality is decided on the lowered Program (the input of expr_from_program), which determines the ExprNodeId returned by parse_to_expr and additionally covers type declarations, aliases, use statements and visibility".into(),
+            "the parser and tokenizer are trusted as the reference reading of both texts".into(),
+            "the formatter's indent size is process-global state; the worker runs cases sequentially".into(),
+        ]
+    }
+    fn required_classes(&self, _tier: Tier) -> Vec<&'static str> {
+        let mut v = vec!["has-comment", "needs-break", "src:corpus", "src:mutant", "src:synthetic"];
+        v.extend(["mut:eol-line-comment", "mut:own-line-comment", "mut:block-comment", "mut:add-blank-line", "mut:remove-blank-line", "mut:reindent", "mut:trailing-whitespace", "mut:join-semicolon", "mut:multi-space", "mut:crlf", "mut:split-line", "mut:split-line-comment", "mut:tight-block-comment"]);
+        v
+    }
+}
 
 pub fn prop() -> Option<&'static dyn Prop> {
-    None
+    Some(&C14)
 }
